@@ -6,6 +6,7 @@ import copy
 from . import dl, gen_dl
 from . import c15_ast as A
 from . import c15_ctx as C
+from . import c15_attrs as SP
 
 AUX = "c15_aux"          # an extra relation nobody derives: aggregating it can never break stratification
 
@@ -732,14 +733,25 @@ def mut_multiple_ds(rng, p):
     return dict(cls="multiple_ds", detail=d[1], where="relation", lattice=d[3])
 
 
+def _unrecognised_attr(rng):
+    """an attribute no macro of ascent recognises, in any spelling: a made-up name (identifier or path, with or without
+    arguments) or a recognised name behind a path prefix / a leading `::`"""
+    form = rng.choice(SP.PATH_FORMS)
+    last = rng.choice([None, None] + A.RECOGNISED) if form != "ident" else None
+    return SP.make_attr(rng, form, rng.choice(SP.ARG_FORMS), last, tokens=("ascent::rel" if last == "ds" else None))
+
+
 def mut_unknown_attr(rng, p):
-    p["attrs"].insert(rng.randrange(len(p["attrs"]) + 1), "unknown")
-    return dict(cls="unknown_attr", detail=None)
+    a = _unrecognised_attr(rng) if rng.random() < 0.6 else "unknown"
+    p["attrs"].insert(rng.randrange(len(p["attrs"]) + 1), a)
+    return dict(cls="unknown_attr", detail=None, spelling=SP.spelling(a), position="prog")
 
 
 def _some_oattrs(rng):
     """one or two outer attributes: a doc comment, attributes rustc knows (allow, cfg), ascent's own ds, a made-up one"""
-    return [rng.choice(A.OATTR_KINDS) for _ in range(rng.choice([1, 1, 2]))]
+    return [(rng.choice(A.OATTR_KINDS) if rng.random() < 0.6 else
+             SP.make_attr(rng, rng.choice(SP.PATH_FORMS), rng.choice(SP.ARG_FORMS), rng.choice([None, None] + A.RECOGNISED)))
+            for _ in range(rng.choice([1, 1, 2]))]
 
 
 def mut_unexpected_attr(rng, p):
@@ -850,9 +862,12 @@ def mut_rel_unknown_attr(rng, p):
     cont, i = rng.choice(_decl_sites(p))
     d = cont[i]
     attrs = list(d[4])
-    attrs.insert(rng.randrange(len(attrs) + 1), "other")
+    a = "other"
+    if rng.random() < 0.6:          # any spelling whose path is not exactly `ds`: the macro hands it to the struct field
+        a = _unrecognised_attr(rng)
+    attrs.insert(rng.randrange(len(attrs) + 1), a)
     _set_attrs_all_twins(p, d, attrs)
-    return dict(cls="rustc_unknown_rel_attr", detail=d[1])
+    return dict(cls="rustc_unknown_rel_attr", detail=d[1], spelling=SP.spelling(a), position="lat" if d[3] else "rel")
 
 
 def mut_include_in_source(rng, p):
